@@ -454,8 +454,10 @@ Definition proto_close (g : option pgroup) : option (list oentry) :=
       end
   end.
 
+(* the protobuf parser converts HISTOGRAM and GAUGE_HISTOGRAM families alike *)
+Definition T_GAUGE_HISTOGRAM : Z := 3.
 Definition proto_role (typ : Z) (bname : string) (l : labels) : option (string * upd) :=
-  if negb (typ =? T_HISTOGRAM) then None
+  if negb ((typ =? T_HISTOGRAM) || (typ =? T_GAUGE_HISTOGRAM)) then None
   else let '(suf, name) := base_name (lget l NAME) in
        if negb (String.eqb name bname) then None
        else match suf with
